@@ -26,7 +26,7 @@ ASSUMPTIONS = [
     'recombinators always receive the two parents they document (First(2) >> recombinator)',
     'an operator raising on valid parents is a violation (closure), except ValueError/IndexError of selectors on an empty population',
 ]
-BUDGET = {'quick': 1200, 'thorough': 40000}
+BUDGET = {'quick': 900, 'thorough': 40000}
 
 SELECTORS = ['sel.Random', 'sel.Sample', 'sel.Proportional', 'sel.Top', 'sel.Bottom', 'sel.First', 'sel.Last']
 MUTATORS = ['m.Uniform', 'm.Swap']
